@@ -1,8 +1,13 @@
-(* Model of reamber/algorithms/utils/dominant_bpm.py (definitions only).
+(* Model of reamber/algorithms/utils/dominant_bpm.py (definitions only), as of /repo commit d3e6d46:
 
-     s = m.stack()
-     pd.concat([m.bpms.offset, pd.Series(s.offset.max())]).sort_values().diff().dropna()
-       .set_axis(m.bpms.bpm).groupby(level=0).sum().idxmax()
+     bpms  = m.bpms.sorted()
+     notes = m.stack((HitList, HoldList)).offset
+     last  = notes.max() if len(notes) else m.stack().offset.max()
+     pd.concat([bpms.offset, pd.Series(last)]).clip(upper=last).diff().dropna()
+       .set_axis(bpms.bpm).groupby(level=0).sum().idxmax()
+
+   The model of the code BEFORE that commit is kept at the end under the names [*_old]; it is used only by
+   the [_old_refuted] theorems (why the repair was needed).
 
    A chart is what the three routines look at: the tempo rows (offset, bpm) in ROW ORDER, the SV rows
    (offset, multiplier) in row order ([None] for games without an [svs] list) and the offsets of
@@ -76,16 +81,33 @@ Fixpoint idxmax_go (best : Q * Q) (l : list (Q * Q)) : Q * Q :=
 Definition idxmax (l : list (Q * Q)) : option Q :=
   match l with [] => None | x :: l' => Some (fst (idxmax_go x l')) end.
 
-(* the labelled interval Series just before the groupby: the i-th interval of the SORTED offsets is
-   paired POSITIONALLY with the bpm of the i-th ROW (set_axis) *)
+(* m.bpms.sorted(): sort_values("offset"), modelled as a stable sort of the rows *)
+Fixpoint binsert (x : Q * Q) (l : list (Q * Q)) : list (Q * Q) :=
+  match l with
+  | [] => [x]
+  | y :: l' => if Qle_bool (fst x) (fst y) then x :: l else y :: binsert x l'
+  end.
+Fixpoint bsort (l : list (Q * Q)) : list (Q * Q) :=
+  match l with [] => [] | x :: l' => binsert x (bsort l') end.
+
+(* last = notes.max() if len(notes) else m.stack().offset.max()
+   ([c_notes] = the rows of every HitList / HoldList (sub)class of the map) *)
+Definition last_offset (c : chart) : option Q :=
+  match qmax_list (c_notes c) with
+  | Some l => Some l
+  | None => qmax_list (stack_offsets c)
+  end.
+
+(* the labelled interval Series just before the groupby: tempo rows in time order, their offsets followed by
+   [last], everything clipped at [last], successive differences, labelled with the bpm of the SAME sorted row *)
 Definition dominant_intervals (c : chart) : option (list (Q * Q)) :=
-  match qmax_list (stack_offsets c) with
+  match last_offset c with
   | None => None                       (* nothing in the map: not modelled (never generated) *)
   | Some last =>
-      let sorted := qsort (map fst (c_bpms c) ++ [last]) in
-      let d := diffs sorted in
+      let rows := bsort (c_bpms c) in
+      let d := diffs (map (fun o => Qmin' o last) (map fst rows ++ [last])) in
       (* set_axis raises on a length mismatch; lengths always agree here *)
-      if Nat.eqb (length d) (length (c_bpms c)) then Some (combine (map snd (c_bpms c)) d) else None
+      if Nat.eqb (length d) (length rows) then Some (combine (map snd rows) d) else None
   end.
 
 Definition dominant_groups (c : chart) : option (list (Q * Q)) :=
@@ -94,3 +116,20 @@ Definition dominant_groups (c : chart) : option (list (Q * Q)) :=
 (* None = ValueError("attempt to get argmax of an empty sequence") *)
 Definition dominant_bpm (c : chart) : option Q :=
   match dominant_groups c with None => None | Some g => idxmax g end.
+
+(* ---------------------------------------------------------------------------------------------------
+   OLD model: dominant_bpm before commit d3e6d46
+     s = m.stack()
+     pd.concat([m.bpms.offset, pd.Series(s.offset.max())]).sort_values().diff().dropna()
+       .set_axis(m.bpms.bpm).groupby(level=0).sum().idxmax()
+   ([s.offset.max()] ranges over tempo rows, SV rows and notes; the i-th interval of the SORTED offsets is
+   paired POSITIONALLY with the bpm of the i-th ROW) *)
+Definition dominant_intervals_old (c : chart) : option (list (Q * Q)) :=
+  match qmax_list (stack_offsets c) with
+  | None => None
+  | Some last =>
+      let d := diffs (qsort (map fst (c_bpms c) ++ [last])) in
+      if Nat.eqb (length d) (length (c_bpms c)) then Some (combine (map snd (c_bpms c)) d) else None
+  end.
+Definition dominant_bpm_old (c : chart) : option Q :=
+  match dominant_intervals_old c with None => None | Some rows => idxmax (groupby_sum rows) end.
